@@ -14,10 +14,10 @@ OPS_ALL = sorted(crit.SPELLINGS)
 PROFILES = {
     # weights / bounds per feature mask
     "full": dict(max_containers=9, max_depth=4, fanout=3, fields=(0, 4), kinds=("int", "int", "float", "enum", "bool",
-                 "str", "bin", "time"), nested=0.35, ctx=0.3, dcal=0.3, dyn=0.5, desc=0.3, arbitrary_names=0.3,
+                 "str", "bin", "time", "mixedint"), nested=0.35, ctx=0.3, dcal=0.3, dyn=0.5, desc=0.3, arbitrary_names=0.3,
                  criteria_forms=("cmp", "list", "bool"), aligned=0.6, bare_base=0.08),
     "trees": dict(max_containers=12, max_depth=4, fanout=4, fields=(0, 3), kinds=("int", "int", "int", "enum", "bool",
-                  "calint"), nested=0.5, ctx=0.0, dcal=0.0, dyn=0.0, desc=0.0, arbitrary_names=0.4,
+                  "calint", "mixedint"), nested=0.5, ctx=0.0, dcal=0.0, dyn=0.0, desc=0.0, arbitrary_names=0.4,
                   criteria_forms=("cmp", "list", "bool"), aligned=0.3, small_ints=True, deep=True, bare_base=0.08),
     "blobs": dict(max_containers=3, max_depth=2, fanout=2, fields=(1, 4), kinds=("str", "str", "bin", "lenint", "int"),
                   nested=0.15, ctx=0.0, dcal=0.2, dyn=0.75, desc=0.0, arbitrary_names=0.1,
@@ -302,11 +302,23 @@ class Gen:
         name = self.fresh("T")
         unit = d(st.sampled_from([None, None, "V", "deg C", "m/s^2", "counts"])) if self.chance(0.4) else None
         pt = {"kind": kind, "name": name, "unit": unit}
-        if kind in ("int", "calint", "lenint"):
+        if kind in ("int", "calint", "lenint", "mixedint"):
             pt["kind"] = "int"
-            enc = self.gen_numeric_enc("int", avail, True, pname, small=(kind == "lenint"))
+            enc = self.gen_numeric_enc("int", avail, True, pname, small=(kind in ("lenint", "mixedint")))
             if kind == "calint":
                 enc["dcal"] = self.gen_cal(True)
+            if kind == "mixedint":
+                # calibrated only in some contexts: the derived value is a float in some packets and an int in others
+                enc["dcal"] = None
+                ccals = []
+                for _ in range(d(st.integers(1, 2))):
+                    if any(a.referable for a in avail) and self.chance(0.6):
+                        m = self.gen_match(avail, forms=("cmp", "list"))
+                    else:
+                        m = {"form": "cmp", "cmps": [{"ref": pname, "op": d(st.sampled_from(["<", ">=", "!=", "=="])),
+                                                      "value": str(d(st.integers(0, 5))), "cal": False}]}
+                    ccals.append({"match": m, "cal": self.gen_cal(True)})
+                enc["ccals"] = ccals
             if kind == "lenint":
                 enc["sign"] = "unsigned"
                 enc["ccals"] = None
@@ -365,7 +377,7 @@ class Gen:
         kind = kind or d(st.sampled_from(list(self.p["kinds"])))
         pname = self.fresh("P")
         if referable is None:
-            referable = kind in ("int", "calint", "lenint", "enum", "bool") or self.chance(0.3)
+            referable = kind in ("int", "calint", "lenint", "mixedint", "enum", "bool") or self.chance(0.3)
         reuse = [t for t in self.types if t.get("_reusable") and t["kind"] == kind]
         if reuse and self.chance(0.2):
             pt = reuse[d(st.integers(0, len(reuse) - 1))]
